@@ -56,12 +56,14 @@ def replay(rec):
             # history: transcribe, then change the value of stage 1's first parameter and add a constraint to stage 1
             transcribe(B)
             p1 = B.parts[0]
-            quiet(p1.stage.set_value, p1.p[0], pval(final['stages'][0]['params'][0], final['stages'][0]['method']['N']))
-            quiet(declare_constraint, p1, final['stages'][0]['cons'][-1], p1.stage)
-            p1.decl = final['stages'][0]        # (integrands are looked up in the declaration)
-            quiet(p1.stage.add_objective, mx(p1, final['stages'][0]['obj'][-2], p1.stage))
-            quiet(p1.stage.add_objective, mx(p1, final['stages'][0]['obj'][-1], p1.stage))
-            quiet(p1.stage.set_der, p1.x[0], mx(p1, final['stages'][0]['rhs'][0], p1.stage))
+            for j_, pr_ in enumerate(final['stages'][0]['params']):
+                quiet(p1.stage.set_value, p1.p[j_], pval(pr_, final['stages'][0]['method']['N']))
+            if not md.get('valonly'):
+                quiet(declare_constraint, p1, final['stages'][0]['cons'][-1], p1.stage)
+                p1.decl = final['stages'][0]        # (integrands are looked up in the declaration)
+                quiet(p1.stage.add_objective, mx(p1, final['stages'][0]['obj'][-2], p1.stage))
+                quiet(p1.stage.add_objective, mx(p1, final['stages'][0]['obj'][-1], p1.stage))
+                quiet(p1.stage.set_der, p1.x[0], mx(p1, final['stages'][0]['rhs'][0], p1.stage))
             before = declared_counts(B)
         if md.get('stagefirst'):
             # the first transcribing call is made on a sub-stage, not on the OCP
@@ -154,3 +156,55 @@ def replay(rec):
         except Exception as e:
             res.append(('C12.h:param', 'error', '%s: %s' % (type(e).__name__, (str(e).splitlines() or [''])[-1][:200])))
     return {'results': res, 'error': None}
+
+
+def nested_saveload():
+    """C18 on a problem with a stage inside a stage: saved after a solve and after the top-level method was exchanged; the
+    loaded problem must be the same NLP (objective, rows, bounds at random points; parameters; start) as the original."""
+    import os, tempfile
+    import casadi as ca
+    from rockit import Ocp, MultipleShooting, DirectCollocation, FreeTime
+    res = []
+    for newm in (lambda: MultipleShooting(N=3, intg='rk'), lambda: DirectCollocation(N=2, degree=2)):
+        def mk():
+            ocp = Ocp(t0=0, T=FreeTime(1.0))
+            p = ocp.parameter(); x = ocp.state(); u = ocp.control()
+            ocp.set_der(x, -p * x + u); ocp.subject_to(ocp.at_t0(x) == 1); ocp.subject_to(-1 <= (u <= 1)); ocp.subject_to(ocp.at_tf(x) == 0.2)
+            ocp.add_objective(ocp.T + ocp.integral(u ** 2)); ocp.set_value(p, 1.3); ocp.set_initial(u, 0.2)
+            ocp.method(MultipleShooting(N=4, M=2, intg='rk')); ocp.solver('ipopt', {"ipopt.print_level": 0, "print_time": False, "ipopt.sb": "yes"})
+            s1 = ocp.stage(t0=FreeTime(0), T=FreeTime(1))
+            y = s1.state(); r = s1.parameter()
+            s1.set_der(y, -r * y); s1.subject_to(s1.at_t0(y) == 1); s1.subject_to(s1.T >= 0.5); s1.add_objective(s1.at_tf(y) ** 2 + s1.T)
+            s1.set_value(r, 0.7); s1.method(MultipleShooting(N=3, intg='rk')); ocp.subject_to(s1.t0 == ocp.tf)
+            s2 = s1.stage(t0=0, T=1)
+            w = s2.state(); v = s2.control()
+            s2.set_der(w, -2 * w + v); s2.subject_to(s2.at_t0(w) == 1); s2.subject_to(-0.5 <= (v <= 0.5))
+            s2.add_objective(s2.at_tf(w) ** 2 + s2.integral(v ** 2)); s2.set_initial(v, 0.1); s2.method(MultipleShooting(N=2, M=3, intg='rk'))
+            return ocp
+        def nlp(o):
+            quiet(lambda: o._transcribed)
+            opti = o._method.opti
+            F = ca.Function('F', [opti.x, opti.p], [opti.f, opti.g, opti.lbg, opti.ubg])
+            return F, np.array(opti.debug.value(opti.x, opti.initial())).reshape(-1), np.array(opti.debug.value(opti.p, opti.initial())).reshape(-1)
+        tag = type(newm()).__name__
+        fn = os.path.join(tempfile.gettempdir(), 'vnest_%d.rockit' % os.getpid())
+        try:
+            ocp = quiet(mk)
+            quiet(ocp.solve)
+            quiet(ocp.method, newm())
+            quiet(ocp.save, fn)
+            o2 = quiet(Ocp.load, fn)
+            Fa, xa, pa = nlp(ocp); Fb, xb, pb = nlp(o2)
+            ok = xa.shape == xb.shape and np.array_equal(pa, pb) and np.allclose(xa, xb)
+            rng = np.random.RandomState(1)
+            for _ in range(3):
+                z = rng.uniform(-1, 2, size=xa.shape)
+                for ra, rb in zip(Fa(z, pa), Fb(z, pb)):
+                    ok = ok and np.array(ra).shape == np.array(rb).shape and np.allclose(np.array(ra), np.array(rb), atol=1e-10, equal_nan=True)
+            ok = ok and len(list(o2.iter_stages(include_self=True))) == 3
+            res.append(('C18.a:nested:' + tag, 'ok' if ok else 'mismatch', 'loaded nested problem differs from the saved one'))
+        except Exception as e:
+            res.append(('C18.a:nested:' + tag, 'error', '%s: %s' % (type(e).__name__, (str(e).splitlines() or [''])[-1][:200])))
+        finally:
+            if os.path.exists(fn): os.unlink(fn)
+    return res
